@@ -30,3 +30,26 @@ NOTES = ("Each check = Lean build + axiom audit of the property's theorems, corr
 
 for _p in ("C01", "C02", "C03", "C04", "C05", "C06", "C07", "C08", "C09", "C10", "C11", "C20"):
     FAMILY[_p] = "fam_session"
+
+# ---- C17 (family namemap) --------------------------------------------------------------------
+FAMILY["C17"] = "fam_namemap"
+REQUIRED_THEOREMS["C17"] = ["C17_partition", "C17_no_dup", "C17_exact", "C17_partition_edge",
+                            "C17_no_dup_edge", "C17_counterexample_unfixed"]
+TRUSTED_BASE["C17"] = [
+    "difflib.get_close_matches opaque: only 'answers with nothing or one of its candidates' (FzOk); recorded answers drive the model",
+    "str.lower is a model parameter (theorems assume nothing about it); driver uses ASCII lower-casing, harness generates ASCII column names only",
+    "feature table (key, feature_type, num_values, display_name, value_names) read from the live annotator classes and sent on every line"]
+ASSUMPTIONS["C17"] = ["source column names pairwise distinct (the property's quantifier)",
+                      "theorems are about the model of _name_mapping.py as repaired (fix commit D6); C17_counterexample_unfixed* prove the partition clause false of the model of the pinned code"]
+
+# ---- C18 (family candgraph) ------------------------------------------------------------------
+FAMILY["C18"] = "fam_candgraph"
+REQUIRED_THEOREMS["C18"] = ["C18_edges", "C18_edges_nodup", "C18_edges_points", "C18_edges_seg",
+                            "C18_nodes", "C18_nodes_points", "C18_nodes_refusal", "C18_iou", "C18_iou_absent",
+                            "C18_counterexample_unfixed", "C18_counterexample_unfixed_spec"]
+TRUSTED_BASE["C18"] = [
+    "scipy KDTree.query_ball_tree = all pairs with distance <= r (model parameter `near`; brute-force exact-rational near relation per case; for r = fl(sqrt K) the pair at d^2 = K follows scipy's float rule fl(d^2) <= fl(r*r))",
+    "skimage regionprops: labels ascending, area = count*prod(spacing), centroid = mean*spacing (checked per case, 1e-9)",
+    "numpy unique/flatten in _compute_ious; networkx add_edge idempotent"]
+ASSUMPTIONS["C18"] = ["frame numbers are non-negative integers (points: integer first column and integer scale[0])",
+                      "all frames of a label array have the same pixel count", "labels are non-negative"]
